@@ -12,6 +12,23 @@
 //
 // Entries: h_scan (bounded, all scripts/presence/main), h_helpers (layer A: contracts of exists_scanner/create_scanner/cleanup_scanner
 // from an ARBITRARY scanner stack - the facts from which "names on lex_stack are pairwise distinct" is inductive for graphs of any size).
+#include "Compiler/include/lexer.hpp"
+#include "Compiler/include/scan.hpp"
+// Container model, refined for this harness only: push_back of the two result vectors writes the new element through CONSTANT element
+// addresses under the guard k == size (ministl's generic push_back writes through __at(size), a pointer with a symbolic offset into the
+// vector, which CBMC turns into a byte-wise update of the whole vector object per written field).  Same semantics, same assertions.
+namespace std {
+template<> inline void vector<Theo::Token>::push_back(const Theo::Token &x) {
+  __CPROVER_assert(n < VCAP, "ministl: vector capacity (model bound)");
+  for (int k = 0; k < VCAP; k++) if (k == n) new (&u.d[k]) Theo::Token(x);
+  n++;
+}
+template<> inline void vector<Theo::ParseError>::push_back(const Theo::ParseError &x) {
+  __CPROVER_assert(n < VCAP, "ministl: vector capacity (model bound)");
+  for (int k = 0; k < VCAP; k++) if (k == n) new (&u.d[k]) Theo::ParseError(x);
+  n++;
+}
+}
 #include "Compiler/src/scan.cpp"
 
 extern "C" { int nondet_int(); }
@@ -42,22 +59,35 @@ int CEX_main, CEX_present[SC_NF], CEX_len[SC_NF], CEX_kind[SC_NF * SC_NE], CEX_a
 static char name_char(int id) { return id < SC_NF ? (char)('a' + id) : id == SC_NF ? 'y' : 'z'; }
 static std::string name_str(int id) { std::string s; if (id != SC_NF + 2) s.__push(name_char(id)); return s; }
 
-static void sym_input() {
+// Layer C: the include layout (which entries are tokens / include / quoted names and what they name, which files exist, the main
+// name) is a constant of the query, supplied by shape_param() (defined in a small C file that props/c15.py generates per layout and hands
+// to CBMC together with the translated harness); the line numbers stay symbolic.  layout == false: everything symbolic.
+extern "C" int shape_param(int idx);
+static void sym_input(bool layout) {
+  int q = 0;
   for (int f = 0; f < SC_NF; f++) {
-    S_present[f] = nondet_bool(); CEX_present[f] = S_present[f];
-    S_len[f] = nondet_int(); ASSUME(S_len[f] >= 0 && S_len[f] <= SC_NE); CEX_len[f] = S_len[f];
+    if (layout) { S_present[f] = shape_param(q) != 0; S_len[f] = shape_param(q + 1); }
+    else { S_present[f] = nondet_bool(); S_len[f] = nondet_int(); }
+    q += 2;
+    CEX_present[f] = S_present[f];
+    ASSUME(S_len[f] >= 0 && S_len[f] <= SC_NE); CEX_len[f] = S_len[f];
     for (int p = 0; p < SC_NE; p++) {
-      int k = nondet_int(); ASSUME(k >= K_ORD && k <= K_FN);
-      int a = nondet_int(); ASSUME(a >= 0 && a < SC_NAMES);
+      int k, a, o;
+      if (layout) { k = shape_param(q); a = shape_param(q + 1); o = shape_param(q + 2); } else { k = nondet_int(); a = nondet_int(); o = nondet_int(); }
+      q += 3;
+      ASSUME(k >= K_ORD && k <= K_FN);
+      ASSUME(a >= 0 && a < SC_NAMES);
       int l = nondet_int(); ASSUME(l >= 1 && l <= 1000000); if (p > 0) ASSUME(l >= S_line[f][p - 1]);
       // kind of an ordinary token: any token kind the scanner can deliver except INCLUDE/FNAME (T_EOF is never delivered with a
       // non-zero return; UNKNOWN is never produced by lexer.l: its catch-all rule yields NV_ID)
-      int o = nondet_int(); ASSUME(o >= (int)Token::ID && o < (int)Token::UNKNOWN && o != (int)Token::INCLUDE && o != (int)Token::FNAME);
+      // (a constant of the layout in layer C: scan() branches on the kind, a symbolic kind would make the control flow symbolic)
+      ASSUME(o >= (int)Token::ID && o < (int)Token::UNKNOWN && o != (int)Token::INCLUDE && o != (int)Token::FNAME);
       S_kind[f][p] = k; S_arg[f][p] = a; S_line[f][p] = l; S_okind[f][p] = o;
       CEX_kind[f * SC_NE + p] = k; CEX_arg[f * SC_NE + p] = a; CEX_line[f * SC_NE + p] = l; CEX_okind[f * SC_NE + p] = o;
     }
   }
-  S_main = nondet_int(); ASSUME(S_main >= 0 && S_main <= SC_NF + 1); CEX_main = S_main;
+  if (layout) S_main = shape_param(q); else S_main = nondet_int();
+  ASSUME(S_main >= 0 && S_main <= SC_NF + 1); CEX_main = S_main;
 }
 
 // entry (f,p) of the scripts, selected with constant indices only
@@ -81,72 +111,84 @@ static std::string tok_text(const Ent &e, int f, int p) {
 }
 
 // ------------------------------------------------------------------------------------------------ script lexer (flex API)
-struct Lx { int alive, hasbuf, file, pos, lineno; Theo::ScannerInfo *extra; char bufcell; };
-static Lx LX[SC_NS];
+// State of scanner h lives in per-field tables that are read and written with constant indices only; the handle given to scan() is the
+// address of HBASE[h] (never dereferenced), the buffer handle the address of BBASE[h].
+static int LX_alive[SC_NS], LX_hasbuf[SC_NS], LX_file[SC_NS], LX_pos[SC_NS], LX_lineno[SC_NS];
+static Theo::ScannerInfo *LX_extra[SC_NS];
+static char HBASE[SC_NS], BBASE[SC_NS];
 static int n_init, n_destroy, n_buf, n_bufrel;
 static int g_active[SC_NF], g_depth, g_maxdepth;     // ghost: files being scanned (from the create/destroy events)
-static Lx *lx_slot(int h) { Lx *r = &LX[0]; for (int k = 1; k < SC_NS; k++) if (h == k) r = &LX[k]; return r; }
+static int geti(const int *a, int h) { int r = a[0]; for (int k = 1; k < SC_NS; k++) if (h == k) r = a[k]; return r; }
+static void seti(int *a, int h, int v) { for (int k = 0; k < SC_NS; k++) if (h == k) a[k] = v; }
+static int handle_of(yyscan_t p) { int h = -1; for (int k = 0; k < SC_NS; k++) if ((char *)p == &HBASE[k]) h = k; return h; }
+static bool live(int h) { return h >= 0 && h < n_init && geti(LX_alive, h) == 1; }
 
 int yylex_init(yyscan_t *scanner) {
   ASSERT(n_init < SC_NS, "script lexer: more scanners created than the harness provides (model bound)");
-  Lx *L = lx_slot(n_init);
-  L->alive = 1; L->hasbuf = 0; L->file = 0; L->pos = 0; L->lineno = nondet_int(); L->extra = 0;
+  int h = n_init;
+  seti(LX_alive, h, 1); seti(LX_hasbuf, h, 0); seti(LX_file, h, 0); seti(LX_pos, h, 0); seti(LX_lineno, h, nondet_int());
+  for (int k = 0; k < SC_NS; k++) if (h == k) LX_extra[k] = 0;
   n_init++;
-  *scanner = (yyscan_t)L;
+  char *r = &HBASE[0]; for (int k = 1; k < SC_NS; k++) if (h == k) r = &HBASE[k];
+  *scanner = (yyscan_t)r;
   return 0;
 }
 YY_BUFFER_STATE yy_scan_string(const char *yy_str, yyscan_t yyscanner) {
-  Lx *L = (Lx *)yyscanner;
-  ASSERT(L != 0 && L->alive == 1, "C02: yy_scan_string is called on a live scanner");
-  ASSERT(L->hasbuf == 0, "C02: a scanner gets exactly one buffer");
+  int h = handle_of(yyscanner);
+  ASSERT(live(h), "C02: yy_scan_string is called on a live scanner");
+  ASSERT(geti(LX_hasbuf, h) == 0, "C02: a scanner gets exactly one buffer");
   int f = yy_str[0] - '0';
   ASSERT(f >= 0 && f < SC_NF && yy_str[1] == 0, "C15: the text handed to the scanner is the content of one of the supplied files");
   bool act = false; for (int i = 0; i < SC_NF; i++) if (f == i && g_active[i]) act = true;
   ASSERT(!act, "C15: a file is never opened while it is being scanned (names on the scanner stack stay pairwise distinct)");
   for (int i = 0; i < SC_NF; i++) if (f == i) g_active[i] = 1;
   g_depth++; if (g_depth > g_maxdepth) g_maxdepth = g_depth;
-  L->hasbuf = 1; L->file = f; L->pos = 0; L->lineno = nondet_int();   // yy_scan_buffer does not initialise yy_bs_lineno
+  seti(LX_hasbuf, h, 1); seti(LX_file, h, f); seti(LX_pos, h, 0); seti(LX_lineno, h, nondet_int());   // yy_scan_buffer does not initialise yy_bs_lineno
   n_buf++;
-  return (YY_BUFFER_STATE)(void *)&L->bufcell;
+  char *r = &BBASE[0]; for (int k = 1; k < SC_NS; k++) if (h == k) r = &BBASE[k];
+  return (YY_BUFFER_STATE)(void *)r;
 }
 void yyset_lineno(int line_number, yyscan_t yyscanner) {
-  Lx *L = (Lx *)yyscanner;
-  ASSERT(L != 0 && L->alive == 1 && L->hasbuf == 1, "C02: yyset_lineno is called on a live scanner with a current buffer (flex aborts otherwise)");
-  L->lineno = line_number;
+  int h = handle_of(yyscanner);
+  ASSERT(live(h) && geti(LX_hasbuf, h) == 1, "C02: yyset_lineno is called on a live scanner with a current buffer (flex aborts otherwise)");
+  seti(LX_lineno, h, line_number);
 }
 void yyset_extra(Theo::ScannerInfo *user_defined, yyscan_t yyscanner) {
-  Lx *L = (Lx *)yyscanner;
-  ASSERT(L != 0 && L->alive == 1, "C02: yyset_extra is called on a live scanner");
-  L->extra = user_defined;
+  int h = handle_of(yyscanner);
+  ASSERT(live(h), "C02: yyset_extra is called on a live scanner");
+  for (int k = 0; k < SC_NS; k++) if (h == k) LX_extra[k] = user_defined;
 }
 int yylex(Theo::Token *ret, yyscan_t yyscanner) {
-  Lx *L = (Lx *)yyscanner;
-  ASSERT(L != 0 && L->alive == 1 && L->hasbuf == 1, "C02: yylex is called on a live scanner with a current buffer");
-  int f = L->file, p = L->pos;
+  int h = handle_of(yyscanner);
+  ASSERT(live(h) && geti(LX_hasbuf, h) == 1, "C02: yylex is called on a live scanner with a current buffer");
+  int f = geti(LX_file, h), p = geti(LX_pos, h);
   if (p >= len_of(f)) return 0;   // end of this file (and again on every later call)
-  ASSERT(L->extra != 0, "C02: yylex delivers a token only after yyset_extra (TOK reads yyextra->filename)");
+  Theo::ScannerInfo *extra = LX_extra[0]; for (int k = 1; k < SC_NS; k++) if (h == k) extra = LX_extra[k];
+  ASSERT(extra != 0, "C02: yylex delivers a token only after yyset_extra (TOK reads yyextra->filename)");
   Ent e = entry(f, p);
   // line = script line counted from the registered first line (script lines are written for first line 1)
-  int line = (int)((unsigned)e.line - 1u + (unsigned)L->lineno);
-  *ret = Theo::Token(tok_kind(e), tok_text(e, f, p), L->extra->filename, line);
-  L->pos = p + 1;
+  int line = (int)((unsigned)e.line - 1u + (unsigned)geti(LX_lineno, h));
+  *ret = Theo::Token(tok_kind(e), tok_text(e, f, p), extra->filename, line);
+  seti(LX_pos, h, p + 1);
   return 1;
 }
-static void release_buffer(Lx *L) {
-  for (int i = 0; i < SC_NF; i++) if (L->file == i) g_active[i] = 0;
-  g_depth--; L->hasbuf = 0; n_bufrel++;
+static void release_buffer(int h) {
+  int f = geti(LX_file, h);
+  for (int i = 0; i < SC_NF; i++) if (f == i) g_active[i] = 0;
+  g_depth--; seti(LX_hasbuf, h, 0); n_bufrel++;
 }
 void yy_delete_buffer(YY_BUFFER_STATE b, yyscan_t yyscanner) {
-  Lx *L = (Lx *)yyscanner;
   if (b == 0) return;
-  ASSERT(L != 0 && L->alive == 1 && L->hasbuf == 1 && (void *)b == (void *)&L->bufcell, "C02: yy_delete_buffer is called once, with the live buffer of that live scanner");
-  if (L->hasbuf == 1) release_buffer(L);
+  int h = handle_of(yyscanner);
+  bool mine = false; for (int k = 0; k < SC_NS; k++) if (h == k && (char *)(void *)b == &BBASE[k]) mine = true;
+  ASSERT(live(h) && geti(LX_hasbuf, h) == 1 && mine, "C02: yy_delete_buffer is called once, with the live buffer of that live scanner");
+  if (live(h) && geti(LX_hasbuf, h) == 1) release_buffer(h);
 }
 int yylex_destroy(yyscan_t yyscanner) {
-  Lx *L = (Lx *)yyscanner;
-  ASSERT(L != 0 && L->alive == 1, "C02: yylex_destroy is called once per scanner, on a live scanner");
-  if (L->hasbuf == 1) release_buffer(L);   // flex: yylex_destroy deletes the current buffer itself
-  L->alive = 0; n_destroy++;
+  int h = handle_of(yyscanner);
+  ASSERT(live(h), "C02: yylex_destroy is called once per scanner, on a live scanner");
+  if (live(h) && geti(LX_hasbuf, h) == 1) release_buffer(h);   // flex: yylex_destroy deletes the current buffer itself
+  seti(LX_alive, h, 0); n_destroy++;
   return 0;
 }
 
@@ -215,8 +257,11 @@ static void ref_expand(Ref &R) {
 // ------------------------------------------------------------------------------------------------ h_scan
 static bool str_is(const std::string &s, const char *lit) { return s == std::string(lit); }
 
-extern "C" void h_scan() {
-  sym_input();
+static void scan_obligations(bool layout);
+extern "C" void h_scan() { scan_obligations(false); __CPROVER_assert(0, "WITNESS: end of h_scan reachable"); }
+extern "C" void h_scan_layout() { scan_obligations(true); __CPROVER_assert(0, "WITNESS: end of h_scan_layout reachable"); }
+static void scan_obligations(bool layout) {
+  sym_input(layout);
   Ref R; ref_expand(R);
   // input bound: the expansion opens at most SC_V files in total (files may be opened repeatedly) - this, not the graph, bounds the run
   ASSUME(R.done && !R.overflow && R.visits <= SC_V);
@@ -232,7 +277,7 @@ extern "C" void h_scan() {
 
   // ---- C02: scan returned; environment protocol respected; nothing leaks
   ASSERT(n_init == n_destroy, "C02: every scanner created by yylex_init is destroyed by yylex_destroy when scan returns");
-  bool any_alive = false; for (int k = 0; k < SC_NS; k++) if (k < n_init && (LX[k].alive || LX[k].hasbuf)) any_alive = true;
+  bool any_alive = false; for (int k = 0; k < SC_NS; k++) if (k < n_init && (LX_alive[k] || LX_hasbuf[k])) any_alive = true;
   ASSERT(!any_alive && n_buf == n_bufrel, "C02: every buffer created by yy_scan_string is released when scan returns");
   ASSERT(n_init == n_buf, "C02: every scanner created got its buffer");
   ASSERT(n_init == R.visits, "C15: scan opens exactly the files that the include expansion visits, as often as it visits them");
@@ -301,11 +346,11 @@ extern "C" void h_scan() {
   ASSERT(reqs && nq == R.nreq, "C15: the file requests (FILE_NOT_FOUND and MAIN_FILE_NOT_FOUND reports) are exactly the absent include targets and the absent main file");
 
   // ---- non-vacuity of the interesting cases (the solver must find them)
+  if (layout) return;
   ASSERT(!(R.nrec >= 1 && R.maxdepth >= 3), "C15(EXISTS): a recursive include through at least two other files is among the inputs");
   ASSERT(!(R.revisit == 1 && R.nrec == 0 && R.ntok >= 2), "C15(EXISTS): a file included twice without recursion is among the inputs");
   ASSERT(!(R.nmain == 1 && R.ntok == 0), "C15(EXISTS): an absent main file is among the inputs");
   ASSERT(!(R.nfnf >= 1 && R.nexp >= 1 && R.visits >= 2), "C15(EXISTS): missing targets and malformed includes inside an included file are among the inputs");
-  ASSERT(0, "WITNESS: end of h_scan reachable");
 }
 
 // ------------------------------------------------------------------------------------------------ h_helpers (layer A)
@@ -339,12 +384,11 @@ extern "C" void h_helpers() {
   FileContent content; content.__push((char)('0' + fid));
   int i0 = n_init, b0 = n_buf;
   Scanner c = create_scanner(content, key);
-  Lx *L = (Lx *)c.s;
   ASSERT(c.f == key, "C15: create_scanner labels the scanner with the name it was asked for");
-  ASSERT(n_init == i0 + 1 && n_buf == b0 + 1 && L == &LX[0] && L->alive == 1 && L->hasbuf == 1 && L->file == fid && L->pos == 0 && (void *)c.buf == (void *)&L->bufcell,
+  ASSERT(n_init == i0 + 1 && n_buf == b0 + 1 && (char *)c.s == &HBASE[0] && LX_alive[0] == 1 && LX_hasbuf[0] == 1 && LX_file[0] == fid && LX_pos[0] == 0 && (char *)(void *)c.buf == &BBASE[0],
          "C15: create_scanner creates one scanner with one buffer over the given content");
-  ASSERT(L->lineno == 1, "C14: create_scanner starts the line count at 1");
-  ASSERT(L->extra != 0 && L->extra == c.si && c.si->filename == key, "C14: create_scanner registers the file name as the label of the scanner's tokens");
+  ASSERT(LX_lineno[0] == 1, "C14: create_scanner starts the line count at 1");
+  ASSERT(LX_extra[0] != 0 && LX_extra[0] == c.si && c.si->filename == key, "C14: create_scanner registers the file name as the label of the scanner's tokens");
   // hence: pushing create_scanner(files[name], name) only when !exists_scanner(stack, name) keeps the names pairwise distinct
   if (distinct && !got && n < SC_NF + 1) {
     ss.push_back(c);
@@ -354,7 +398,7 @@ extern "C" void h_helpers() {
     ss.pop_back();
   }
   cleanup_scanner(c);
-  ASSERT(n_destroy == 1 && n_bufrel == 1 && L->alive == 0 && L->hasbuf == 0, "C02: cleanup_scanner releases the buffer and the scanner");
+  ASSERT(n_destroy == 1 && n_bufrel == 1 && LX_alive[0] == 0 && LX_hasbuf[0] == 0, "C02: cleanup_scanner releases the buffer and the scanner");
   // (the ScannerInfo allocated by create_scanner must have been deleted: memory-leak check of this entry)
   ASSERT(0, "WITNESS: end of h_helpers reachable");
 }
